@@ -168,9 +168,9 @@ func (s *cpuMix) next() uint64 {
 	z = (z ^ (z >> 27)) * 0x94d049bb133111eb
 	return z ^ (z >> 31)
 }
-func (s *cpuMix) u8() uint8        { return uint8(s.next() >> 32) }
-func (s *cpuMix) n(n int) int      { return int(s.next()>>33) % n }
-func (s *cpuMix) u16() uint16      { return uint16(s.next() >> 32) }
+func (s *cpuMix) u8() uint8         { return uint8(s.next() >> 32) }
+func (s *cpuMix) n(n int) int       { return int(s.next()>>33) % n }
+func (s *cpuMix) u16() uint16       { return uint16(s.next() >> 32) }
 func (s *cpuMix) pick(xs []int) int { return xs[s.n(len(xs))] }
 
 func cpuOpName(code []byte) string {
